@@ -194,15 +194,16 @@ def check_trace(F: Facts, events):
     sz_d = F.sz.by_def if F.sz is not None else {}
     scopes = F.cu.use_to_scope if F.cu is not None else {}
 
-    def add(analysis, what, node, fact, observed):
+    def add(analysis, what, node, fact, observed, var=None):
         bad.append({'analysis': analysis, 'what': what, 'node': node if isinstance(node, str) else _fmt(node),
-                    'fact': str(fact), 'observed': repr(observed)[:200]})
+                    'fact': str(fact), 'observed': repr(observed)[:200],
+                    'obj': None if isinstance(node, str) else node, 'var': var})
 
-    def class_fact(cls, v, analysis, node):
+    def class_fact(cls, v, analysis, node, var=None):
         if cls is None or not is_number(v):
             return
         if not (int(cls.value) & atom_of(v)):
-            add(analysis, 'a run-time value is outside the reported value class', node, cls, v)
+            add(analysis, 'a run-time value is outside the reported value class', node, cls, v, var=var)
 
     for ev in events:
         k = ev[0]
@@ -232,7 +233,7 @@ def check_trace(F: Facts, events):
         elif k == 'def':
             _, di, name, v = ev
             d = du.defs[di]
-            class_fact(vc_d.get(d), v, 'value_class.by_def', f'{name} (def #{di})')
+            class_fact(vc_d.get(d), v, 'value_class.by_def', f'{name} (def #{di})', var=name)
             if d in pe_d and not same_value(pe_d[d], v):
                 add('partial_eval.by_def', 'a definition reported constant was bound to another value', f'{name} (def #{di})', repr(pe_d[d]), v)
             if d in ty_d and not type_ok(ty_d[d], v):
@@ -242,7 +243,7 @@ def check_trace(F: Facts, events):
         elif k == 'phi':
             _, pi, name, v, di = ev
             d = du.defs[pi]
-            class_fact(vc_d.get(d), v, 'value_class.by_def(phi)', f'{name} (phi #{pi})')
+            class_fact(vc_d.get(d), v, 'value_class.by_def(phi)', f'{name} (phi #{pi})', var=name)
             if d in pe_d and not same_value(pe_d[d], v):
                 add('partial_eval.by_def(phi)', 'a phi reported constant held another value', f'{name} (phi #{pi})', repr(pe_d[d]), v)
             if d in ty_d and not type_ok(ty_d[d], v):
@@ -503,16 +504,17 @@ class AnnExporter:
 
 
 def _children(x):
-    """Child expressions of an fpy2 expression node, in evaluation order (generic)."""
+    """Child expressions of an fpy2 expression node (generic, through __slots__)."""
     import fpy2.ast.fpyast as A
-    out = []
-    names = ('arg', 'first', 'second', 'third', 'value', 'index', 'start', 'stop', 'cond', 'ift', 'iff')
-    for n in names:
-        c = getattr(x, n, None)
-        if isinstance(c, A.Expr):
-            out.append(c)
-    for n in ('args', 'elts', 'iterables'):
-        cs = getattr(x, n, None)
-        if isinstance(cs, (list, tuple)):
-            out += [c for c in cs if isinstance(c, A.Expr)]
+    out, seen = [], set()
+    for cls in type(x).__mro__:
+        for n in getattr(cls, '__slots__', ()):
+            if n in seen or n in ('func', 'fn', 'kwargs', 'targets', 'loc'):
+                continue
+            seen.add(n)
+            c = getattr(x, n, None)
+            if isinstance(c, A.Expr):
+                out.append(c)
+            elif isinstance(c, (list, tuple)):
+                out += [y for y in c if isinstance(y, A.Expr)]
     return out
